@@ -197,6 +197,12 @@ class Scheduler:
         self.raw_region = raw_region
         self.lock_names = [k for k, v in vars(store_cls).items()
                            if isinstance(v, (type(threading.Lock()), type(threading.RLock()), SchedLock))]
+        # class attributes that start as None and may become locks on first use: every run starts from None again
+        self.lazy_names = [k for k, v in vars(store_cls).items() if v is None and 'lock' in k.lower()]
+
+    def reset_lazy(self):
+        for k in self.lazy_names:
+            setattr(self.store_cls, k, None)
 
     def entry(self, lineno):
         if self.guard is not None:
@@ -230,7 +236,7 @@ class Scheduler:
         (list of worker indices), then drained round robin.  Returns dict(labels, results, owner, owners_seen)."""
         saved = {k: getattr(self.store_cls, k) for k in self.lock_names}
         # class attributes that start as None and may lazily become locks are put back afterwards as well
-        lazy = {k: v for k, v in vars(self.store_cls).items() if v is None and 'lock' in k.lower()}
+        self.reset_lazy()
         self.store_cls.active_in_thread = None
         for k in self.lock_names:
             setattr(self.store_cls, k, SchedLock())
@@ -278,8 +284,7 @@ class Scheduler:
             threading.Lock, threading.RLock = orig_lock, orig_rlock
             for k, v in saved.items():
                 setattr(self.store_cls, k, v)
-            for k, v in lazy.items():
-                setattr(self.store_cls, k, v)
+            self.reset_lazy()
             self.store_cls.active_in_thread = None
             for w in workers:                      # never leave a worker waiting for the scheduler
                 if not w.finished:
@@ -303,6 +308,7 @@ class Scheduler:
             return {'results': results, 'idents_distinct': len(set(idents)) == len(idents),
                     'owner': self.owner_wid(workers)}
         finally:
+            self.reset_lazy()
             self.store_cls.active_in_thread = None
 
 
@@ -332,6 +338,7 @@ class Scheduler:
                 1 if (o is w or o == w.my_ident) else 'other'
             return {'results': results, 'idents_distinct': True, 'owner': owner}
         finally:
+            self.reset_lazy()
             self.store_cls.active_in_thread = None
 
 
